@@ -7,6 +7,11 @@ From Coq Require Import List Bool ZArith Arith.
 From PUN Require Import Base.Num Base.Sort Model.Interval.
 Import ListNotations.
 
+(* which operator answers np.subtract(a, b) and its siblings when one input is a p-box: the forward operator of the first input, or (numpy scalar
+   on the left) the reflected operator of the p-box *)
+Inductive ufunc_route := ForwardOfFirst | ReflectedOfSelf.
+Definition ufunc_route_of (first_is_pbox : bool) : ufunc_route := if first_is_pbox then ForwardOfFirst else ReflectedOfSelf.
+
 Section P.
 Variable N : Num.
 Notation "x + y" := (nadd N x y). Notation "x - y" := (nsub N x y).
